@@ -69,6 +69,7 @@ def gen_case(run_seed, tier):
         "default_solver": method == "default" and sz.random() < 0.6,
         "lseed": sz.randrange(10**9), "bug_rate": sz.choice([0.0, 0.0, 0.2, 0.5]),
         "shuffle_nodes": sz.random() < 0.35,
+        "shuffle_edges": sz.random() < 0.35,
     }
 
 
@@ -100,7 +101,7 @@ def run_case(case):
     warnings.filterwarnings("ignore")
     ctx = Ctx(ID)
     n, edges = case["n"], [tuple(e) for e in case["edges"]]
-    G = graphs.to_nx((n, edges))
+    G = graphs.to_nx((n, edges), edge_order_seed=(case["lseed"] + 17) if case.get("shuffle_edges") else None)
     if case.get("shuffle_nodes") and case["present"] in ("nx", "g"):
         # same labelled graph, vertices inserted in another order (the relabel map must then still be an isomorphism
         # from the target's labels); only for presentations that keep the labels
